@@ -102,6 +102,14 @@ func (c *bufConn) Close() error {
 	return nil
 }
 
+// Deafen makes every later Write of the peer fail (as after a reset by this side) while this side can still write
+func (c *bufConn) Deafen() {
+	c.rd.mu.Lock()
+	c.rd.rdClosed = true
+	c.rd.cond.Broadcast()
+	c.rd.mu.Unlock()
+}
+
 func (c *bufConn) SetReadDeadline(t time.Time) error {
 	h := c.rd
 	h.mu.Lock()
